@@ -46,7 +46,8 @@ def foreign_lines(rng):
 def gen_config(rng):
     """Returns (scopes: dict scope -> text / env list, defs known to the generator: sym -> [(kind, value, ast)])."""
     defs, res_map = RC.gen_groupdefs(rng, deep=(rng.random() < 0.2))
-    texts = {"system": [], "global": [], "local": [], "command": []}
+    wt_scope = rng.random() < 0.3       # this configuration is read from a linked worktree with its own config.worktree
+    texts = {"system": [], "global": [], "local": [], "command": [], "worktree": []}
     order = []
     asts = {}
     # every entry counts, in git's order, also when the same (key, value) is listed more than once with an entry of the
@@ -66,7 +67,7 @@ def gen_config(rng):
         if rng.random() < 0.3:
             sym = sym[0].upper() + sym[1:]                  # capitals in the subsection are preserved by git
         for kind, v in ents:
-            scope = rng.choice(["system", "global", "local", "local", "command"])
+            scope = rng.choice(["system", "global", "local", "local", "command"] + (["worktree", "worktree"] if wt_scope else []))
             key = {"n": "name", "i": "include", "x": "exclude", "I": rng.choice(["includeRegexp", "includeregexp"]),
                    "X": rng.choice(["excludeRegexp", "EXCLUDEREGEXP"])}[kind]
             val = v.decode("latin1") if isinstance(v, bytes) else RC.re_text(v)
@@ -124,6 +125,20 @@ def run(ctx):
             gitdir = s.materialise(d)
             with open(os.path.join(gitdir, "config"), "a") as f:
                 f.write("\n".join(texts["local"]) + "\n")
+            cwd = d
+            if texts["worktree"]:
+                # extensions.worktreeConfig: the linked worktree has entries of its own, the main worktree has others that
+                # git does not report from here
+                cwd = os.path.join(scratch, "wt%d" % it)
+                e0 = S.clean_env()
+                subprocess.run(["git", "-C", d, "worktree", "add", "-q", "--detach", cwd, s.oids[c].hex()], check=True, env=e0,
+                               stdout=subprocess.DEVNULL, stderr=subprocess.DEVNULL)
+                subprocess.run(["git", "-C", d, "config", "extensions.worktreeConfig", "true"], check=True, env=e0)
+                with open(os.path.join(gitdir, "config.worktree"), "w") as f:
+                    f.write('[refgroup "mainonly"]\n\tinclude = refs/tags\n[sizer]\n\tnames = none\n')
+                with open(os.path.join(gitdir, "worktrees", "wt%d" % it, "config.worktree"), "w") as f:
+                    f.write("\n".join(texts["worktree"]) + "\n")
+                dist["worktree_scope_configs"] = dist.get("worktree_scope_configs", 0) + 1
             gl = os.path.join(scratch, "global%d" % it)
             sy = os.path.join(scratch, "system%d" % it)
             open(gl, "w").write("\n".join(texts["global"]) + "\n")
@@ -136,7 +151,7 @@ def run(ctx):
             for i, (k, v) in enumerate(texts["command"]):
                 env["GIT_CONFIG_KEY_%d" % i] = k
                 env["GIT_CONFIG_VALUE_%d" % i] = v
-            p = subprocess.run(["git", "--no-replace-objects", "-c", "advice.graftFileDeprecated=false", "config", "--list", "-z"], cwd=d, env=env, stdout=subprocess.PIPE, stderr=subprocess.PIPE)
+            p = subprocess.run(["git", "--no-replace-objects", "-c", "advice.graftFileDeprecated=false", "config", "--list", "-z"], cwd=cwd, env=env, stdout=subprocess.PIPE, stderr=subprocess.PIPE)
             if p.returncode != 0:
                 continue    # the generated file is not valid for git: not an input of the property
             raw = p.stdout
@@ -154,13 +169,13 @@ def run(ctx):
                     if sym and sym not in syms:
                         syms.append(sym)
             prefixes = [b"", b"refgroup", b"refgr", b"refgroup.", b"foo", b"core"] + [b"refgroup." + x for x in syms]
-            reqs = ["getconfig %s %s" % (vlib.hx(d.encode()), vlib.hx(pf)) for pf in prefixes]
+            reqs = ["getconfig %s %s" % (vlib.hx(cwd.encode()), vlib.hx(pf)) for pf in prefixes]
             pa = subprocess.run([ctx["bins"]["api"]], input=("\n".join(reqs) + "\n").encode(), env=env, stdout=subprocess.PIPE)
             api = pa.stdout.decode().split("\n")[:-1]
             mod = vlib.batch(ctx["modelrun"], ["getconfig %s %s" % (vlib.hx(raw), vlib.hx(pf)) for pf in prefixes])
             for pf, a, m in zip(prefixes, api, mod):
                 inp = {"local": texts["local"], "global": texts["global"], "system": texts["system"], "command": texts["command"],
-                       "prefix": pf.decode("latin1"), "listing_hex": raw.hex()}
+                       "worktree": texts["worktree"], "prefix": pf.decode("latin1"), "listing_hex": raw.hex()}
                 res.case((raw, pf), nv + ml > 0, sample={"prefix": pf.decode("latin1"), "implementation": a[:300]} if it % 13 == 0 and pf == b"refgroup" else None)
                 # independent reference: NUL-first split, exact prefix boundary
                 exp = []
@@ -182,7 +197,7 @@ def run(ctx):
                 elif a != m:
                     res.violations.append(vlib.Violation("GetConfig differs from the model", inp, expected=m[:2000], observed=a[:2000], nofail=True))
             # (2) groups visible through the CLI
-            rc, out, err = S.run_sizer(ctx["bins"]["sizer"], d, ["--json", "--no-progress", "--show-refs"], env=env)
+            rc, out, err = S.run_sizer(ctx["bins"]["sizer"], cwd, ["--json", "--no-progress", "--show-refs"], env=env)
             marks = {}
             for l in err.split(b"\n"):
                 if l.startswith(b"+ "):
@@ -219,7 +234,7 @@ def run(ctx):
             m = vlib.batch(ctx["modelrun"], [" ".join(line.split())])[0]
             cats, rows = RC.parse_model_refs(m)
             inp = {"local": texts["local"], "global": texts["global"], "system": texts["system"], "command": texts["command"],
-                   "refs": [r.decode("latin1") for r in refs]}
+                   "worktree": texts["worktree"], "refs": [r.decode("latin1") for r in refs]}
             trailing_dot = any(sym.endswith(b".") for sym in syms)
             if isinstance(cats, str):
                 if rc == 0:
